@@ -490,6 +490,11 @@ impl Server {
         // Critical fix: Only proceed if we actually got data
         // This prevents race conditions when multiple clients wake up simultaneously
         if let Some(popped_value) = value {
+            self.log_served_pop(wakeup.db, &wakeup.key, match wakeup.op_type {
+                super::connection::BlockingOp::BRPop => "RPOP",
+                _ => "LPOP",
+            });
+            
             // Try to update connection state - use try_with_connection to avoid deadlock
             if let Some(result) = self.connections.with_connection(wakeup.conn_id, |conn| -> Result<()> {
                 // Only wake if still in blocked state
@@ -3216,6 +3221,7 @@ impl Server {
         // Try non-blocking first (fast path)
         for key in &keys {
             if let Some(value) = self.storage.lpop(db_index, key)? {
+                self.log_served_pop(db_index, key, "LPOP");
                 return Ok(RespFrame::Array(Some(vec![
                     RespFrame::from_bytes(key.clone()),
                     RespFrame::from_bytes(value),
@@ -3285,6 +3291,7 @@ impl Server {
         // Try non-blocking first (fast path)  
         for key in &keys {
             if let Some(value) = self.storage.rpop(db_index, key)? {
+                self.log_served_pop(db_index, key, "RPOP");
                 return Ok(RespFrame::Array(Some(vec![
                     RespFrame::from_bytes(key.clone()),
                     RespFrame::from_bytes(value),
@@ -3312,6 +3319,17 @@ impl Server {
         
         // Return the special NoResponse marker - this will not be sent to client
         Ok(RespFrame::NoResponse)
+    }
+    
+    /// A blocking pop that was served changed the list: log it as the plain pop it amounted
+    /// to (the blocking form itself is not replayable - it may have waited)
+    fn log_served_pop(&self, db: usize, key: &[u8], pop_command: &str) {
+        if let Some(aof) = &self.aof_engine {
+            let parts = [RespFrame::from_string(pop_command), RespFrame::from_bytes(key.to_vec())];
+            if let Err(e) = aof.append_command_in_db(db, &parts) {
+                eprintln!("Failed to append to AOF: {}", e);
+            }
+        }
     }
     
     /// Handle RANDOMKEY command
